@@ -374,7 +374,12 @@ func exploreC13(t *testing.T, seed uint64, idx int, tier string, sink *Sink) {
 		hist.Ops = append(hist.Ops, Op{ID: 11, K: "put-prof", Prof: p1, Label: class.name})
 	}
 	if !sameJSON(tgt, t1) {
-		hist.Ops = append(hist.Ops, Op{ID: 12, K: "put-ent", Spec: t1, Label: class.name})
+		ed := Op{ID: 12, K: "put-ent", Spec: t1, Label: class.name}
+		if r.Chance(1, 6) && t1.Path() == tgt.Path() {
+			ed.Arg = "keep-mtime" // the edited file keeps its old timestamp (cp -p, rsync -t, restore)
+			hist.Meta["keep-mtime"] = "1"
+		}
+		hist.Ops = append(hist.Ops, ed)
 	}
 	hist.Ops = append(hist.Ops, Op{ID: 13, K: "run", Flags: FlagC, Tags: []string{"detect"}})
 	w := execC13(t, hist)
